@@ -3,11 +3,11 @@
 
 class Run:
     def __init__(self, name, harness, defines=None, std='c++17', exc=False, entry='harness', preempt=2, faults=1, covers=0, optional_covers=(),
-                 native=('gxx-O0-san', 'gxx-O2'), bounds='', budget_s=900, max_path_steps=400000, own_new=False, max_witnesses=12, opt=None, shared_points=False, mt=False, gnuc='10.0.0'):
+                 native=('gxx-O0-san', 'gxx-O2'), bounds='', budget_s=900, max_path_steps=400000, own_new=False, max_witnesses=12, opt=None, shared_points=False, mt=False, gnuc='10.0.0', linetables=False):
         self.name = name; self.harness = harness; self.defines = dict(defines or {}); self.std = std; self.exc = exc; self.entry = entry
         self.preempt = preempt; self.faults = faults; self.covers = covers; self.optional_covers = tuple(optional_covers)
         self.native = list(native) if native else []; self.bounds = bounds; self.budget_s = budget_s; self.max_path_steps = max_path_steps
-        self.own_new = own_new; self.max_witnesses = max_witnesses; self.opt = opt; self.shared_points = shared_points; self.mt = mt; self.gnuc = gnuc
+        self.own_new = own_new; self.max_witnesses = max_witnesses; self.opt = opt; self.shared_points = shared_points; self.mt = mt; self.gnuc = gnuc; self.linetables = linetables
 
 
 class BmcRun(Run):
@@ -120,6 +120,8 @@ PROPS['C10'] = Prop(
     quick=[_cm('copymove_cl_k3', 0, 3, 'CallbackList', ', generation counter at a symbolic position', optional_covers=(8,)),
            _cm('copymove_disp_k2', 1, 2, 'EventDispatcher', optional_covers=(7, 8)),
            _cm('copymove_queue_k3', 2, 3, 'EventQueue', q=' / enqueue / process / copy-construct from inside a listener during process() / copy-construct while a DisableQueueNotify guard is alive; emptyQueue() and waitFor(0) checked on every object'),
+           Run('copymove_disp_filters_k2', 'copymove.cpp', {'KK': 2, 'OBJ': 1, 'FILTERS': None}, covers=12, optional_covers=(7, 8, 9, 10), bounds='EventDispatcher with MixinFilter: one initial filter (filters observe and rewrite the argument); K=2 steps from the C10 alphabet + add filter / add-and-remove filter; after every step every live object is dispatched and must run ITS filters in order, then its listeners with the rewritten argument'),
+           Run('copymove_queue_filters_k2', 'copymove.cpp', {'KK': 2, 'OBJ': 2, 'FILTERS': None}, covers=12, optional_covers=(7, 8, 9, 10), bounds='EventQueue with MixinFilter, K=2, as above + enqueue / process (queued events pass the filters of the object that processes them)'),
            _cm('copymove_hcl_k2', 3, 2, 'HeterCallbackList (2 prototypes)', optional_covers=(7, 8)),
            _cm('copymove_hdisp_k2', 4, 2, 'HeterEventDispatcher', optional_covers=(7, 8)),
            _cm('copymove_hqueue_k2', 5, 2, 'HeterEventQueue', q=' / enqueue / process', optional_covers=(7, 8))],
@@ -262,8 +264,16 @@ _TH = ('%s, Threading = %s; initial list [A, B] with shared handles; T=%d thread
 _SP_HOOKS = 'every mutex / atomic / condition-variable operation of the instrumented policy'
 _SP_AUTO = _SP_HOOKS + ' plus every plain load/store from eventpp code to a heap/global object another thread has touched (automatic points; engine verdict only, not natively replayable)'
 _NOREP3 = '(engine verdict only: the per-prototype lists inside the heterogeneous classes use std::mutex whatever the Threading policy says) '
+_LK = ('lock primitive behind the multi-threaded policy: %s used through the Threading::Mutex interface (std::lock_guard); T=%d threads x %d rounds of lock / critical section with scheduling points between the read and the write of a plain counter / unlock; '
+       'every schedule with at most P=%d preemptions, every atomic of the lock is a scheduling point; mutual exclusion, no lost update, no thread left spinning or blocked, lock free at the end')
+def _lk(name, kind, t, r, p, what, **kw):
+    return Run(name, 'spinlock.cpp', {'LOCKKIND': kind, 'TT': t, 'RR': r}, preempt=p, covers=2, optional_covers=(0,), mt=True, native=(), linetables=True, bounds=_LK % (what, t, r, p), **kw)
+_LKQ = [_lk('spinlock_t2_r2_p4', 0, 2, 2, 4, 'eventpp::SpinLock (real code)'), _lk('spinlock_t3_r1_p3', 0, 3, 1, 3, 'eventpp::SpinLock (real code)'),
+        Run('spinlock_callbacklist_t2_p3', 'spinlock.cpp', {'LOCKKIND': 2, 'TT': 2, 'RR': 2}, preempt=3, covers=2, mt=True, native=(), linetables=True, bounds='CallbackList under GeneralThreading<SpinLock> (real SpinLock on IR atomics): 2 threads x (2 appends + remove of the first), P<=3; survivors exactly once, in per-thread order')]
+_LKT = [_lk('spinlock_t2_r3_p5', 0, 2, 3, 5, 'eventpp::SpinLock (real code)', budget_s=1700), _lk('spinlock_t3_r2_p3', 0, 3, 2, 3, 'eventpp::SpinLock (real code)', budget_s=1700),
+        _lk('stdmutex_t2_r2_p4', 1, 2, 2, 4, 'std::mutex (engine model of pthread_mutex_*; control run for the oracle)')]
 PROPS['C03'] = Prop(
-    quick=[Run('cl_threads_s1_hooks_p2', 'cl_threads.cpp', {'TT': 2, 'SS': 1}, preempt=2, covers=4, optional_covers=(2,), mt=True, bounds=_TH % ('CallbackList', 'instrumented policy', 2, 1, 2, _SP_HOOKS)),
+    quick=_LKQ + [Run('cl_threads_s1_hooks_p2', 'cl_threads.cpp', {'TT': 2, 'SS': 1}, preempt=2, covers=4, optional_covers=(2,), mt=True, bounds=_TH % ('CallbackList', 'instrumented policy', 2, 1, 2, _SP_HOOKS)),
            Run('cl_threads_s2_hooks_p1', 'cl_threads.cpp', {'TT': 2, 'SS': 2, 'OPSET': 1}, preempt=1, covers=4, mt=True, bounds=_TH % ('CallbackList', 'instrumented policy', 2, 2, 1, _SP_HOOKS) + '; reduced operation alphabet (append, prepend, insert-before-B, remove B, ownsHandle B, invoke)'),
            Run('cl_threads_s1_auto_p2', 'cl_threads.cpp', {'TT': 2, 'SS': 1}, preempt=2, covers=4, optional_covers=(2,), mt=True, shared_points=True, native=(), bounds=_TH % ('CallbackList', 'instrumented policy', 2, 1, 2, _SP_AUTO)),
            Run('cl_threads_s1_empty_hooks_p2', 'cl_threads.cpp', {'TT': 2, 'SS': 1, 'INIT': 0}, preempt=2, covers=4, optional_covers=(0, 1, 2), mt=True, bounds=_TH % ('CallbackList', 'instrumented policy', 2, 1, 2, _SP_HOOKS) + '; list initially EMPTY (handles A, B are empty handles)'),
@@ -272,7 +282,7 @@ PROPS['C03'] = Prop(
            Run('hdisp_threads_empty_s1_auto_p2', 'cl_threads.cpp', {'TT': 2, 'SS': 1, 'DISP': 2, 'OPSET': 3, 'INIT': 0}, preempt=2, covers=4, optional_covers=(0, 1, 2, 3), mt=True, shared_points=True, native=(), bounds=_NOREP3 + _TH % ('HeterEventDispatcher', 'instrumented policy; the dispatcher starts EMPTY: the threads race for the first use of the event and of the per-prototype list', 2, 1, 2, _SP_AUTO)),
            Run('hdisp_threads_grow_s1_auto_p2', 'cl_threads.cpp', {'TT': 2, 'SS': 1, 'DISP': 2, 'OPSET': 3, 'OTHERS': None, 'STDMAP': None}, preempt=2, covers=4, optional_covers=(0, 1, 2, 3), mt=True, shared_points=True, native=(), bounds=_NOREP3 + _TH % ('HeterEventDispatcher', 'instrumented policy; std::map; events 5, 6, 8 registered besides the main event 7, new events 9, 10 registered by the threads (the tree rotates under concurrent lookups)', 2, 1, 2, _SP_AUTO)),
            Run('disp_threads_grow_s1_auto_p2', 'cl_threads.cpp', {'TT': 2, 'SS': 1, 'DISP': 1, 'OPSET': 3, 'OTHERS': None, 'STDMAP': None}, preempt=2, covers=4, optional_covers=(0, 1, 2, 3), mt=True, shared_points=True, native=(), bounds=_TH % ('EventDispatcher', 'instrumented policy; std::map; events 5, 6, 8 registered besides the main event 7, new events 9, 10 registered by the threads (the tree rotates under concurrent lookups)', 2, 1, 2, _SP_AUTO))],
-    thorough=[Run('hdisp_threads_grow_s2_auto_p1', 'cl_threads.cpp', {'TT': 2, 'SS': 2, 'DISP': 2, 'OPSET': 3, 'OTHERS': None, 'STDMAP': None}, preempt=1, covers=4, optional_covers=(0, 1, 2, 3), mt=True, shared_points=True, native=(), budget_s=1700, bounds=_NOREP3 + _TH % ('HeterEventDispatcher', 'instrumented policy; std::map; events 5, 6, 8 registered besides the main event 7, new events 9, 10 registered by the threads (the tree rotates under concurrent lookups)', 2, 2, 1, _SP_AUTO)),
+    thorough=_LKT + [Run('hdisp_threads_grow_s2_auto_p1', 'cl_threads.cpp', {'TT': 2, 'SS': 2, 'DISP': 2, 'OPSET': 3, 'OTHERS': None, 'STDMAP': None}, preempt=1, covers=4, optional_covers=(0, 1, 2, 3), mt=True, shared_points=True, native=(), budget_s=1700, bounds=_NOREP3 + _TH % ('HeterEventDispatcher', 'instrumented policy; std::map; events 5, 6, 8 registered besides the main event 7, new events 9, 10 registered by the threads (the tree rotates under concurrent lookups)', 2, 2, 1, _SP_AUTO)),
               Run('disp_threads_grow_hash_s2_auto_p1', 'cl_threads.cpp', {'TT': 2, 'SS': 2, 'DISP': 1, 'OPSET': 3, 'OTHERS': None}, preempt=1, covers=4, optional_covers=(0, 1, 2, 3), mt=True, shared_points=True, native=(), budget_s=1700, bounds=_TH % ('EventDispatcher', 'instrumented policy; default (hashed) map; other events registered besides the main one, new events registered by the threads', 2, 2, 1, _SP_AUTO)),
               Run('cl_threads_s2_hooks_p2', 'cl_threads.cpp', {'TT': 2, 'SS': 2}, preempt=2, covers=4, mt=True, budget_s=1700, bounds=_TH % ('CallbackList', 'instrumented policy', 2, 2, 2, _SP_HOOKS)),
               Run('cl_threads_s2_auto_p1', 'cl_threads.cpp', {'TT': 2, 'SS': 2, 'OPSET': 1}, preempt=1, covers=4, mt=True, shared_points=True, native=(), budget_s=1700, bounds=_TH % ('CallbackList', 'instrumented policy', 2, 2, 1, _SP_AUTO) + '; reduced alphabet'),
